@@ -44,6 +44,14 @@ RULE = ('fshift: every length n = 2..256 (thorough: every n <= 512, all primes <
         'and random arrays incl. edge maxima, ties, plateaus, the 2-D branch; numeric oracle of the delay estimate on Ricker/Morlet '
         'wavelets. A case is non-trivial when the shift is non-zero and the signal is not constant; distinct by its description.')
 ASSUMPTIONS = [
+    'input FORMS are drawn independently of the values and tagged: data layout C / Fortran / strided view / negative-stride view / read-only; '
+    'scalar shift as Python float, int, np.float64, np.float32, np.int64, np.int16, 0-d array (per-trace path) ; per-trace vector as float64, '
+    'float32, int64, int16, read-only, strided view, shaped (ntr,1) or (1,ntr); call spelled fshift(w, s, axis=a) / fshift(w, s, a) / '
+    'fshift(w, s, a, None) / all keywords / default axis — positional order PINNED to the unchanged signature (w, s, axis, ns); '
+    'parabolic_max on float64/float32/int64/int16 data in four layouts, positional and x=; wave_shift_corrmax / shift_waveform on views. '
+    'Excluded forms: per-trace shifts as a Python list/tuple (unsupported API: AttributeError no attribute reshape); integer-dtype DATA '
+    '(outside the float32/float64 quantifier; the code truncates, known finding integer_dtype_truncation); a read-only cluster for '
+    'shift_waveform (known finding shift_waveform_readonly_cluster)',
     'fshift, parabolic_max, wave_shift_corrmax and shift_waveform are treated as pure functions of their arguments (the model is one): on '
     'half of the fshift cases the same argument objects (data and shift vector) are passed three times, followed by equal fresh arguments, on '
     'a quarter other library calls are interleaved; every repeated result must equal the first bit for bit (= the model of the ORIGINAL values); '
@@ -187,6 +195,94 @@ def make_shift(n, kind, seed):
 
 
 # ---------------------------------------------------------------------------------------------
+# input FORMS: legitimate representations of the same mathematical call (drawn independently of the values)
+# ---------------------------------------------------------------------------------------------
+# parameter order of the unchanged tree; positional calls are spelled in THIS order, so a reordered signature shows up as a
+# wrong result of a concrete positional call
+PINNED = {'fshift': ['w', 's', 'axis', 'ns'], 'parabolic_max': ['x'], 'wave_shift_corrmax': ['spike', 'spike2'],
+          'shift_waveform': ['wf_cluster']}
+LAYOUTS_1D = ('C', 'strided', 'negstride', 'readonly')
+LAYOUTS_2D = ('C', 'F', 'strided', 'negstride', 'readonly')
+CALLS = ('kw', 'pos3', 'pos4', 'kwall', 'default')
+SCALAR_FORMS = ('float', 'np.float64', 'np.float32', 'int', 'np.int64', 'np.int16', '0d')
+VECTOR_FORMS = ('f64', 'f32', 'int64', 'int16', 'readonly', 'strided', 'col', 'row')
+
+
+def layout_array(a, layout):
+    """the same values in another memory layout"""
+    a = np.asarray(a)
+    if layout == 'F' and a.ndim == 2:
+        return np.asfortranarray(a)
+    if layout == 'strided':
+        big = np.full(tuple(2 * d for d in a.shape), 99, dtype=a.dtype)
+        sl = tuple(slice(None, None, 2) for _ in a.shape)
+        big[sl] = a
+        return big[sl]
+    if layout == 'negstride':
+        sl = tuple(slice(None, None, -1) for _ in a.shape)
+        return a[sl].copy()[sl]
+    if layout == 'readonly':
+        b = a.copy(); b.setflags(write=False)
+        return b
+    return np.ascontiguousarray(a).copy()
+
+
+def shift_value(sv, sform):
+    """(value as float / float64 array that the form can represent exactly, form actually used)"""
+    if isinstance(sv, np.ndarray):
+        if sform == 'f32':
+            return sv.astype(np.float32).astype(np.float64), sform
+        if sform in ('int64', 'int16') and not (sv.size and np.all(sv == np.round(sv)) and np.all(np.abs(sv) < 30000)):
+            return sv, 'f64'
+        return sv, sform
+    if sform == 'np.float32':
+        return float(np.float32(sv)), sform
+    if sform in ('int', 'np.int64', 'np.int16') and not (float(sv) == round(float(sv)) and abs(sv) < 30000):
+        return float(sv), 'float'
+    return float(sv), sform
+
+
+def shift_object(sv, sform):
+    if isinstance(sv, np.ndarray):
+        if sform == 'f32':
+            return sv.astype(np.float32)
+        if sform == 'int64':
+            return sv.astype(np.int64)
+        if sform == 'int16':
+            return sv.astype(np.int16)
+        if sform == 'readonly':
+            b = sv.copy(); b.setflags(write=False)
+            return b
+        if sform == 'strided':
+            return np.repeat(sv, 2)[::2]
+        if sform == 'col':
+            return sv.reshape(-1, 1).copy()
+        if sform == 'row':
+            return sv.reshape(1, -1).copy()
+        return sv.copy()
+    return {'np.float64': np.float64, 'np.float32': np.float32, 'int': lambda v: int(round(v)), 'np.int64': lambda v: np.int64(round(v)),
+            'np.int16': lambda v: np.int16(round(v)), '0d': np.array}.get(sform, float)(sv)
+
+
+def call_fshift(w, sv, axis, spelling='kw'):
+    from ibldsp.fourier import fshift
+    if spelling == 'pos3':
+        return fshift(w, sv, axis)
+    if spelling == 'pos4':
+        return fshift(w, sv, axis, None)
+    if spelling == 'kwall':
+        return fshift(w=w, s=sv, axis=axis, ns=None)
+    if spelling == 'default' and axis == -1:
+        return fshift(w, sv)
+    return fshift(w, sv, axis=axis)
+
+
+def spelled(spelling, axis):
+    return {'pos3': f'fshift(w, s, {axis})', 'pos4': f'fshift(w, s, {axis}, None)', 'kwall': f'fshift(w=w, s=s, axis={axis}, ns=None)',
+            'default': 'fshift(w, s)' if axis == -1 else f'fshift(w, s, axis={axis})'}.get(spelling, f'fshift(w, s, axis={axis})')
+
+
+# ---------------------------------------------------------------------------------------------
 # running the real code
 # ---------------------------------------------------------------------------------------------
 def _err_name(e):
@@ -212,20 +308,24 @@ def _interleave(n, dt, k):
 _S_MODIFIED = [0]
 
 
-def _run_impl(w64, s, axis, purity=0):
+def _run_impl(w64, s, axis, purity=0, form=None):
     """Run fshift in float64 and float32; return ('ok', y64, y32) or ('err X',) or a description of an interface / purity
     violation.  The DATA array must stay bit-identical (the property says so).  purity >= 1: the SAME argument objects (data and
     shift vector) are passed two more times, then equal fresh arguments; every result must be bit-identical to the first, which
     is the one compared with the model of the ORIGINAL values (a shift vector modified in place shows up here, through its
     consequence).  purity >= 2: other library calls are interleaved.  Returned arrays are never written to."""
-    from ibldsp.fourier import fshift
+    form = form or {}
+    spelling = form.get('call', 'kw')
+
+    def fshift(w_, s_, axis=-1):
+        return call_fshift(w_, s_, axis, spelling)
     outs = []
     for dt in (np.float64, np.float32):
-        name = np.dtype(dt).name
-        w = np.array(w64, dtype=dt)
-        w0 = w.copy()
-        s_in = s.copy() if isinstance(s, np.ndarray) else s
-        s0 = s.copy() if isinstance(s, np.ndarray) else s
+        name = np.dtype(dt).name + ''.join(f' {k}={v}' for k, v in form.items())
+        w = layout_array(np.array(w64, dtype=dt), form.get('layout', 'C'))
+        w0 = np.array(w, copy=True)
+        s_in = shift_object(s, form.get('sform')) if (isinstance(s, np.ndarray) or 'sform' in form) else s
+        s0 = np.array(s_in, copy=True) if isinstance(s_in, np.ndarray) else s_in
         try:
             y = fshift(w, s_in, axis=axis)
         except Exception as e:  # noqa
@@ -237,7 +337,7 @@ def _run_impl(w64, s, axis, purity=0):
         if y.shape != w.shape:
             return (f'bad: shape {y.shape} != input shape {w.shape} ({name})',)
         if y.dtype != w.dtype:
-            return (f'bad: dtype {y.dtype} != input dtype {w.dtype}',)
+            return (f'bad: dtype {y.dtype} != input dtype {w.dtype} ({name})',)
         if not np.array_equal(w, w0):
             return (f'bad: real input array was modified ({name})',)
         if isinstance(s0, np.ndarray) and not np.array_equal(s_in, s0):
@@ -250,7 +350,8 @@ def _run_impl(w64, s, axis, purity=0):
                 y2 = fshift(w, s_in, axis=axis)              # the same objects again
                 y2c = y2.copy()
                 y3 = fshift(w, s_in, axis=axis)              # and once more
-                y4 = fshift(w0.copy(), s0.copy() if isinstance(s0, np.ndarray) else s0, axis=axis)   # equal fresh arguments
+                from ibldsp.fourier import fshift as _fs
+                y4 = _fs(w0.copy(), s0.copy() if isinstance(s0, np.ndarray) else s0, axis=axis)   # equal fresh arguments, plain spelling
             except Exception as e:  # noqa
                 return (f'bad: purity: a repeated identical call raised {type(e).__name__}: {e} ({name})',)
             for k, yy in ((2, y2c), (3, y3), (4, y4)):
@@ -334,8 +435,9 @@ def _cases_1d(ctx):
                 sk = str(rng.choice(['frac', 'int', 'half'])); sg = str(rng.choice(['randn', 'impulse']))
             seed = int(rng.integers(0, 2 ** 31))
             axis = int(rng.choice([-1, -1, 0]))
-            stype = str(rng.choice(['float', 'float', 'np.float64', 'int' if sk.startswith('int') or sk == 'zero' else 'float', 'array1']))
-            cases.append({'op': 'fshift1', 'n': n, 'axis': axis, 'shift': sk, 'sig': sg, 'seed': seed, 'stype': stype})
+            stype = str(rng.choice(['float', 'float', 'np.float64', 'np.float32', 'int', 'np.int64', 'np.int16', '0d', 'array1']))
+            cases.append({'op': 'fshift1', 'n': n, 'axis': axis, 'shift': sk, 'sig': sg, 'seed': seed, 'stype': stype,
+                          'layout': str(rng.choice(LAYOUTS_1D)), 'call': str(rng.choice(CALLS))})
     # error branches
     for n in (0, 1):
         for axis in (-1, 0):
@@ -352,12 +454,13 @@ def _build_1d(c):
     x = make_signal(n, c['sig'], c['seed']) if n > 0 else np.zeros(0)
     s = make_shift(max(n, 1), c['shift'], c['seed'])
     st = c['stype']
-    if st == 'float':
-        s_py, s_line = float(s), ('S', _bits(s))
-    elif st == 'np.float64':
-        s_py, s_line = np.float64(s), ('S', _bits(s))
-    elif st == 'int':
-        s_py, s_line = int(s), ('S', _bits(float(int(s))))
+    if st == '0d':
+        s, _ = shift_value(s, 'float')
+        s_py, s_line = np.array(s), ('V', _bits([s]))          # a 0-d array is not np.isscalar: it takes the per-trace path
+    elif not st.startswith('array'):
+        s, st2 = shift_value(s, st)
+        c['stype_used'] = st2
+        s_py, s_line = shift_object(s, st2), ('S', _bits(s))
     else:
         k = int(st[5:])
         vec = np.array([s] + [0.25] * (k - 1), dtype=float)[:k] if k else np.zeros(0)
@@ -385,14 +488,16 @@ def _cases_2d(ctx):
             else:
                 b = ntr = int(rng.integers(2, 25))
         cases.append({'op': 'fshift2', 'nrow': a, 'ncol': b, 'axis': axis, 'mode': mode, 'seed': int(rng.integers(0, 2 ** 31)),
-                      'n': n, 'ntr': ntr})
+                      'n': n, 'ntr': ntr, 'layout': str(rng.choice(LAYOUTS_2D)), 'call': str(rng.choice(CALLS)),
+                      'sform': str(rng.choice(SCALAR_FORMS[:6] if mode == 'scalar' else VECTOR_FORMS))})
     # many traces sharing the few distinct shifts of a real probe (ADC tables: 12 or 16 distinct values over 384 channels)
     for k in range(ctx.n(10, 60)):
         ntr = int(rng.choice([26, 32, 48, 96, 384])); n = int(rng.integers(4, 17)) if ntr < 384 else int(rng.integers(4, 9))
         axis = int(rng.choice([0, 1, -1, -2]))
         a, b = (ntr, n) if axis in (1, -1) else (n, ntr)
         cases.append({'op': 'fshift2', 'nrow': a, 'ncol': b, 'axis': axis, 'mode': str(rng.choice(['adc', 'repeat'])),
-                      'seed': int(rng.integers(0, 2 ** 31)), 'n': n, 'ntr': ntr})
+                      'seed': int(rng.integers(0, 2 ** 31)), 'n': n, 'ntr': ntr, 'layout': str(rng.choice(LAYOUTS_2D)),
+                      'call': str(rng.choice(CALLS)), 'sform': str(rng.choice(VECTOR_FORMS))})
     for axis in (2, -3):
         cases.append({'op': 'fshift2', 'nrow': 3, 'ncol': 8, 'axis': axis, 'mode': 'scalar', 'seed': 5, 'n': 8, 'ntr': 3})
     cases.append({'op': 'fshift2', 'nrow': 1, 'ncol': 8, 'axis': 0, 'mode': 'scalar', 'seed': 6, 'n': 1, 'ntr': 8})
@@ -434,6 +539,7 @@ def _build_2d(c):
     mode = c['mode']
     if mode == 'scalar':
         s = float(r.choice([r.uniform(-n, n), float(r.integers(-n, n + 1)), 0.5]))
+        s, c['sform_used'] = shift_value(s, c.get('sform', 'float'))
         return w, s, ('S', _bits(s))
     if mode == 'pertrace':
         s = r.uniform(-max(n, 1), max(n, 1), size=ntr)
@@ -443,6 +549,7 @@ def _build_2d(c):
         s = repeated_shifts(r, mode, ntr, n)
     else:
         s = r.uniform(-1, 1, size=ntr + int(r.choice([1, 2, -1]) if ntr > 1 else 1))
+    s, c['sform_used'] = shift_value(np.asarray(s, dtype=float), c.get('sform', 'f64'))
     return w, s, ('V', _bits(s))
 
 
@@ -538,7 +645,13 @@ def _corr_fshift(ctx):
     for (c, w, s_py), a in zip(built, ans):
         pur = 2 if (ncase % 4 == 0 and c.get('n', 99) <= 96) else 1 if ncase % 2 == 0 else 0
         ncase += 1
-        res = _run_impl(w, s_py, c['axis'], purity=pur)
+        form = {}
+        if 'layout' in c:
+            form = {'layout': c['layout'], 'call': c['call']}
+            if c['op'] == 'fshift2':
+                form['sform'] = c.get('sform_used', 'f64')
+        res = _run_impl(w, s_py, c['axis'], purity=pur, form=form)
+        ftags = tuple(f'form:{k}={v}' for k, v in form.items())
         dec = _dec if c['op'] == 'fshift1' else _dec_rows
         impl_s, model_s = _compare_numeric(res, a, w, dec)
         if res[0] == 'ok' and a.startswith('ok '):
@@ -551,11 +664,11 @@ def _corr_fshift(ctx):
             desc = dict(c); desc['s'] = s_py.tolist() if isinstance(s_py, np.ndarray) else float(s_py)
             nontriv = c['n'] >= 2 and c['shift'] != 'zero' and c['sig'] != 'const'
             tags = ('purity:' + ('none', 'repeat', 'repeat+interleave')[pur], 'fshift1', _nclass(c['n']) if c['n'] >= 2 else 'n<2', 'shift:' + c['shift'], 'sig:' + c['sig'], f'axis={c["axis"]}',
-                    's:' + c['stype'], 'result:' + ('err' if res[0].startswith('err') else 'ok'))
+                    's:' + c.get('stype_used', c['stype']), 'result:' + ('err' if res[0].startswith('err') else 'ok')) + ftags
         elif c['op'] == 'fshift2':
             desc = dict(c)
             nontriv = True
-            tags = ('purity:' + ('none', 'repeat', 'repeat+interleave')[pur], 'fshift2', f'axis={c["axis"]}', 'mode:' + c['mode'], 'result:' + ('err' if res[0].startswith('err') else 'ok'))
+            tags = ('purity:' + ('none', 'repeat', 'repeat+interleave')[pur], 'fshift2', f'axis={c["axis"]}', 'mode:' + c['mode'], 'result:' + ('err' if res[0].startswith('err') else 'ok')) + ftags
         else:
             desc = dict(c); nontriv = True
             tags = ('impulse_basis', _nclass(c['n']), 'shift:' + c['shift'])
@@ -587,14 +700,21 @@ def _pmax_cases(ctx):
     return out
 
 
+PFORMS = [(d, l, c) for d in ('float64', 'float32', 'int64', 'int16') for l in LAYOUTS_1D for c in ('pos', 'kw')]
+
+
 def _corr_pmax(ctx):
     from ibldsp.utils import parabolic_max
     cases = _pmax_cases(ctx)
     ans = ctx.lean([f'pmax {_bits(x)}' for _, x in cases])
-    for (kind, x), a in zip(cases, ans):
+    for k_case, ((kind, x), a) in enumerate(zip(cases, ans)):
         desc = {'op': 'pmax', 'kind': kind, 'x': x.tolist()}
         try:
-            xo = x.copy()
+            pform = PFORMS[k_case % len(PFORMS)] if (kind != 'float' or PFORMS[k_case % len(PFORMS)][0] == 'float64') else ('float64', 'C', 'pos')
+            desc['form'] = list(pform)
+            xo = layout_array(x.astype(pform[0]), pform[1])
+            if pform[2] == 'kw':
+                parabolic_max(x=xo)                          # keyword spelling of the single parameter
             ip, mx = parabolic_max(xo)
             ip, mx = float(ip), float(mx)
             ipb, mxb = parabolic_max(xo)                      # the same object again
@@ -616,7 +736,8 @@ def _corr_pmax(ctx):
                 impl_s, model_s = f'ok {_bits(ip)} {_bits(mx)}', a
         except Exception as e:  # noqa
             impl_s, model_s = _err_name(e), a
-        ctx.compare('pmax', desc, impl_s, model_s, nontrivial=len(x) >= 3, tags=('pmax', 'pmax:' + kind))
+        ctx.compare('pmax', desc, impl_s, model_s, nontrivial=len(x) >= 3,
+                    tags=('pmax', 'pmax:' + kind) + tuple(f'pmax form:{v}' for v in desc.get('form', ())))
     # the 2-D branch of parabolic_max works row by row like the 1-D branch
     rng = ctx.rng
     for _ in range(ctx.n(60, 400)):
@@ -646,7 +767,9 @@ def delay_case(n, wav, a, c, d, dtype):
     from ibldsp.waveforms import wave_shift_corrmax
     w = (ricker(n, a, c) if wav == 'ricker' else morlet(n, a, c)).astype(dtype)
     w2 = fshift(w, d)
-    rs, dh = wave_shift_corrmax(w, w2)
+    lay = LAYOUTS_1D[int(abs(d) * 1000) % len(LAYOUTS_1D)]      # form of the two arguments, independent of the property
+    w, w2 = layout_array(w, lay), layout_array(w2, LAYOUTS_1D[(int(abs(d) * 1000) // 7) % len(LAYOUTS_1D)])
+    rs, dh = wave_shift_corrmax(w, w2)                        # positional, in the pinned order (spike, spike2)
     dh = float(dh)
     rs1 = np.array(rs, copy=True)
     rsb, dhb = wave_shift_corrmax(w, w2)                     # the same argument objects again
@@ -699,6 +822,12 @@ def cluster_case(p):
     tmpl = amps[:, None] * base[None, :]
     h = (len(d) - 1) // 2
     wf = np.stack([fshift(tmpl, float(di), axis=-1) for di in d])
+    # a read-only cluster is excluded: known finding shift_waveform_readonly_cluster (the helper _validate_arr_in writes into a view of it)
+    lay = ('C', 'F', 'negstride')[(len(d) + n) % 3]
+    if lay == 'F':
+        wf = np.asfortranarray(wf)
+    elif lay != 'C':
+        wf = layout_array(wf, lay)
     wf0 = wf.copy()
     out, sh = shift_waveform(wf)
     if out.shape != wf.shape:
@@ -957,27 +1086,35 @@ def run_sequence(seq):
     objs, last = {}, {}
     for idx, c in enumerate(seq):
         fn = c['fn']
-        sig = json.dumps({k: v for k, v in c.items() if k != 'args_id'}, sort_keys=True)
+        FORM_KEYS = ('args_id', 'layout', 'sform', 'call')
+        sig = json.dumps({k: v for k, v in c.items() if k not in FORM_KEYS}, sort_keys=True)      # the VALUES of the call
+        formsig = json.dumps({k: c.get(k) for k in FORM_KEYS[1:]}, sort_keys=True)
         if fn == 'fshift':
             dt = np.dtype(c['dtype'])
             key = c.get('args_id', f'#{idx}')
             if key not in objs:
-                objs[key] = (np.array(c['w'], dtype=dt), np.array(c['s'], dtype=float) if isinstance(c['s'], list) else c['s'])
+                sval = np.array(c['s'], dtype=float) if isinstance(c['s'], list) else c['s']
+                sobj = shift_object(sval, c.get('sform')) if (isinstance(sval, np.ndarray) or 'sform' in c) else sval
+                objs[key] = (layout_array(np.array(c['w'], dtype=dt), c.get('layout', 'C')), sobj)
             w, sv = objs[key]
             w0 = np.array(c['w'], dtype=dt)
+            how = spelled(c.get('call', 'kw'), c['axis']) + ''.join(f', {k}={c[k]}' for k in ('layout', 'sform') if k in c)
             try:
-                y = fourier.fshift(w, sv, axis=c['axis'])
+                y = call_fshift(w, sv, c['axis'], c.get('call', 'kw'))
             except Exception as e:  # noqa
-                return idx, f'call #{idx} fshift raised {type(e).__name__}: {e}', 'a shifted array'
+                return idx, f'call #{idx} {how} raised {type(e).__name__}: {e}', 'a shifted array'
             if not np.array_equal(w, w0):
                 return idx, f'call #{idx}: fshift modified its real-valued input array: now {w.tolist()}', f'input left untouched: {w0.tolist()}'
             if y.shape != w0.shape or y.dtype != w0.dtype:
                 return idx, f'call #{idx}: result shape {y.shape} dtype {y.dtype}', f'shape {w0.shape} dtype {w0.dtype}'
-            if sig in last and not np.array_equal(y, last[sig][1]):
-                j = last[sig][0]
-                return (idx, f'call #{idx} has the same arguments as call #{j} but returns {y.tolist()}',
-                        f'the result of call #{j}: {last[sig][1].tolist()}')
-            svec = np.atleast_1d(np.asarray(sv, dtype=float))
+            if sig in last:
+                j, yj, fj = last[sig]
+                same = np.array_equal(y, yj) if fj == formsig else \
+                    (y.shape == yj.shape and float(np.max(np.abs(y.astype(float) - yj.astype(float)), initial=0.0)) <= 4 * _tol(dt, w0))
+                if not same:
+                    return (idx, f'call #{idx} {how} has the same argument values as call #{j} but returns {y.tolist()}',
+                            f'the result of call #{j}: {yj.tolist()}')
+            svec = np.asarray(sv, dtype=float).ravel()
             if np.all(svec == np.round(svec)):
                 ax = c['axis']
                 if w0.ndim == 1 or svec.size == 1:
@@ -986,14 +1123,14 @@ def run_sequence(seq):
                     rows = ax in (1, -1)
                     ref = np.stack([np.roll(w0[i, :] if rows else w0[:, i], int(svec[i])) for i in range(svec.size)], axis=0 if rows else 1)
                 if np.max(np.abs(y.astype(float) - ref.astype(float))) > 4 * _tol(dt, w0):
-                    return idx, f'call #{idx}: fshift by the integer shift(s) {svec.tolist()} = {y.tolist()}', f'np.roll = {ref.tolist()}'
-            last[sig] = (idx, y.copy())
+                    return idx, f'call #{idx}: {how} with the integer shift(s) {svec.tolist()} = {y.tolist()}', f'np.roll = {ref.tolist()}'
+            last[sig] = (idx, y.copy(), formsig)
         elif fn == 'parabolic_max':
             key = c.get('args_id', f'#{idx}')
             if key not in objs:
-                objs[key] = np.array(c['x'], dtype=float)
+                objs[key] = layout_array(np.array(c['x'], dtype=c.get('dtype', 'float64')), c.get('layout', 'C'))
             x = objs[key]
-            r = utils.parabolic_max(x)
+            r = utils.parabolic_max(x=x) if c.get('call') == 'kw' else utils.parabolic_max(x)
             val = (np.asarray(r[0], dtype=float).tolist(), np.asarray(r[1], dtype=float).tolist())
             if sig in last and val != last[sig][1]:
                 return idx, f'call #{idx} = {val}', f'same as the identical call #{last[sig][0]}: {last[sig][1]}'
@@ -1112,6 +1249,12 @@ def search(ctx, reasons):
                     add(guarded(oracle_pertrace, w, sv, c['axis'], dt), 'harness/props/c07.py oracle_pertrace(w, s, axis, dtype) on the disagreeing case')
         elif c.get('op') == 'pmax':
             add(guarded(oracle_pmax, c['x']), 'harness/props/c07.py oracle_pmax(x)')
+            if c.get('form') and c['form'] != ['float64', 'C', 'pos']:
+                sq = [{'fn': 'parabolic_max', 'x': c['x'], 'dtype': c['form'][0], 'layout': c['form'][1], 'call': c['form'][2]}]
+                r = guarded(run_sequence, sq)
+                if r:
+                    found.append({'input': {'sequence': sq}, 'observed': str(r[1]), 'expected': 'C07: ' + str(r[2]),
+                                  'how': 'harness/props/c07.py run_sequence(input["sequence"]) (dtype / layout / call give the form of x)'})
         elif c.get('op') == 'pmax2d':
             add(guarded(oracle_pmax2d, c['x']), 'harness/props/c07.py oracle_pmax2d(x)')
         elif c.get('op') == 'delay':
@@ -1196,6 +1339,57 @@ def search(ctx, reasons):
                 found.append({'input': cluster_params(seed), 'observed': r if isinstance(r, str) else r[1],
                               'how': 'harness/props/c07.py cluster_case(input)', 'expected': 'C07: shift_waveform re-aligns shifted copies of a template'})
                 break
+    # input forms: the same call in another legitimate representation (layout, spelling of the shift, positional arguments in the
+    # order of the unchanged signature) must give the same values
+    form_seqs = []
+    for m in ctx.mismatches[:120]:
+        c = m['case']
+        if len(form_seqs) >= 6:
+            break
+        if c.get('layout') is None or c.get('n', 0) < 2:
+            continue
+        if c.get('op') == 'fshift1' and c['n'] <= 16 and not c['stype'].startswith('array'):
+            x, s_py, _ = _build_1d(c)
+            sv = float(np.asarray(s_py, dtype=float))
+            base = {'fn': 'fshift', 'w': x.tolist(), 'dtype': 'float64', 's': sv, 'axis': c['axis']}
+            form_seqs.append([dict(base), dict(base, layout=c['layout'], call=c['call'], sform=c.get('stype_used', 'float'))])
+        elif c.get('op') == 'fshift2' and c['nrow'] * c['ncol'] <= 40 and c.get('mode') != 'wrongsize':
+            w, sv, _ = _build_2d(c)
+            base = {'fn': 'fshift', 'w': w.tolist(), 'dtype': 'float64', 's': sv.tolist() if isinstance(sv, np.ndarray) else sv, 'axis': c['axis']}
+            form_seqs.append([dict(base), dict(base, layout=c['layout'], call=c['call'], sform=c.get('sform_used', 'f64'))])
+    w23 = [[1.0, 2.0, 4.0], [3.0, 5.0, 9.0]]
+    for call in CALLS:
+        for axis, sv in ((0, 1), (1, 1), (0, [1.0, 0.0, 1.0]), (1, [1.0, 2.0]), (-1, 0.5), (0, 0.5)):
+            base = {'fn': 'fshift', 'w': w23, 'dtype': 'float64', 's': sv, 'axis': axis}
+            form_seqs.append([dict(base), dict(base, call=call)])
+        form_seqs.append([{'fn': 'fshift', 'w': [1.0, 2.0, 4.0], 'dtype': 'float64', 's': 1, 'axis': 0, 'call': call}])
+    for layout in LAYOUTS_2D[1:]:
+        for axis, sv in ((0, [0.5, 1.0, 0.25]), (1, [0.5, 1.0])):
+            base = {'fn': 'fshift', 'w': w23, 'dtype': 'float64', 's': sv, 'axis': axis}
+            form_seqs.append([dict(base), dict(base, layout=layout)])
+    for sform in VECTOR_FORMS[1:]:
+        sv = [1.0, 2.0] if sform.startswith('int') else [0.5, 1.25]
+        base = {'fn': 'fshift', 'w': w23, 'dtype': 'float64', 's': sv, 'axis': 1}
+        form_seqs.append([dict(base), dict(base, sform=sform)])
+    for sform in SCALAR_FORMS[1:6]:
+        sv = 0.5 if 'float' in sform else 1
+        base = {'fn': 'fshift', 'w': w23, 'dtype': 'float64', 's': sv, 'axis': 1}
+        form_seqs.append([dict(base), dict(base, sform=sform)])
+    nform = 0
+    for sq in sorted(form_seqs, key=lambda q: _size({'sequence': q})):
+        if nform >= 3:
+            break
+        try:
+            r = run_sequence(sq)
+        except Exception as e:  # noqa
+            r = (0, f'raised {type(e).__name__}: {e}', 'no exception')
+        if r:
+            if r[0] == 0 and len(sq) > 1:
+                sq = sq[:1]
+            found.append({'input': {'sequence': sq}, 'observed': r[1], 'expected': 'C07: ' + r[2],
+                          'how': 'harness/props/c07.py run_sequence(input["sequence"]); keys layout / sform / call give the concrete form of '
+                                 'the arguments and the spelling of the call (positional order pinned to fshift(w, s, axis, ns))'})
+            nform += 1
     # state carried between calls: concrete call sequences (same objects repeated, results overwritten, calls interleaved),
     # each tried in a fresh interpreter
     seq_inputs = []
@@ -1312,4 +1506,32 @@ def known_findings(ctx):
         pred = 1.0 * math.sin(math.pi * 0.5) ** 2 / 2
         ctx.known_hits[KNOWN_KEY] += 1
         return bool(abs((lhs[0] - rhs[0]) - pred) < 1e-12 and abs(lhs[0] - rhs[0]) > 0.4)
-    return {KNOWN_KEY: demo}
+    def demo_readonly():
+        """shift_waveform -> get_array_peak -> _validate_arr_in does `arr_in[np.isnan(arr_in)] = 0` on a swapaxes VIEW of the caller's
+        cluster: a read-only cluster (e.g. np.load(..., mmap_mode='r')) raises ValueError, and NaN samples of a writable cluster are
+        overwritten with 0 in the caller's array."""
+        from ibldsp.fourier import fshift
+        from ibldsp.waveforms import shift_waveform
+        base = -ricker(96, 3.0, 48.0)
+        tmpl = np.array([0.5, 1.0, 0.3])[:, None] * base[None, :]
+        wf = np.stack([fshift(tmpl, d, axis=-1) for d in (-1.0, 0.0, 1.0)])
+        ro = wf.copy(); ro.setflags(write=False)
+        try:
+            shift_waveform(ro)
+            raised = False
+        except ValueError as e:
+            raised = 'read-only' in str(e)
+        wn = wf.copy(); wn[0, 2, 5] = np.nan
+        try:
+            shift_waveform(wn)
+        except Exception:  # noqa
+            pass
+        return bool(raised and not np.isnan(wn[0, 2, 5]))
+
+    def demo_int():
+        """integer-dtype data (outside the property's float32/float64 quantifier): the result is cast back with astype, which
+        truncates 0.9999999 to 0: an integer shift of int16 data is not the roll"""
+        from ibldsp.fourier import fshift
+        x = np.array([3, 1, 4, 1, 5, 9, 2, 6], dtype=np.int16)
+        return not np.array_equal(fshift(x, 3), np.roll(x, 3))
+    return {KNOWN_KEY: demo, 'shift_waveform_readonly_cluster': demo_readonly, 'integer_dtype_truncation': demo_int}
